@@ -2,6 +2,7 @@
 import Atto.Driver.Codec
 import Atto.Model.Send
 import Atto.Model.SendT
+import Atto.Model.SendW
 namespace Atto.Driver
 open Atto
 
@@ -118,7 +119,7 @@ def hopOutToString (h : HopOut) : String :=
     `pt = true` (op `sendpt`): CONNECT tunnels without their TLS layer (`Model/SendT.lean`); every hop
     then prints a sixth field, the request written inside the tunnel (`~` when there is none), and the
     TLS name is printed as handed to the handshaker. -/
-def opSendGen (pt : Bool) (args : List String) : String :=
+def opSendGen (pt : Bool) (args : List String) (fault : Option WriteFault := none) : String :=
   match args with
   | [m, cfg, ops, body, url, hops] =>
     match cfgOfString cfg, (splitComma ops).mapM hopOp, bodyOfString body, urlOfString url,
@@ -138,9 +139,23 @@ def opSendGen (pt : Bool) (args : List String) : String :=
           s!"{hexOfBytes h.dialScheme}:{hexOfBytes h.dialHost}:{h.dialPort}:{hexOrDash (canonWire h.wrote)}:{tls}:{inner}"
         s!"hops={"|".intercalate (outs.map show1)} final={finalToString fin}"
       else
-        let (outs, fin) := send cfg.s req 8192 u hs
-        let outs := outs.map (fun o => { o with wrote := canonWire o.wrote })
-        s!"hops={"|".intercalate (outs.map hopOutToString)} final={finalToString fin}"
+        match fault with
+        | none =>
+          let (outs, fin) := send cfg.s req 8192 u hs
+          let outs := outs.map (fun o => { o with wrote := canonWire o.wrote })
+          s!"hops={"|".intercalate (outs.map hopOutToString)} final={finalToString fin}"
+        | some f =>
+          -- op `sendf`: the connection that broke shows how many bytes it took (`cut<k>`), not which: the order
+          -- of the header lines on the wire is not part of the model
+          let free := send cfg.s req 8192 u hs
+          let shown := match free.1[f.hop]? with | some o => decide (f.takes < o.wrote.length) | none => false
+          let (outs, fin) := sendW cfg.s req 8192 u hs f
+          let strs := outs.mapIdx (fun i o =>
+            if shown && i == f.hop then
+              let tls := match o.tlsName with | some n => if o.tlsNameIsDomain then hexOrDash n else "no-sni" | none => "~"
+              s!"{hexOfBytes o.dialScheme}:{hexOfBytes o.dialHost}:{o.dialPort}:cut{o.wrote.length}:{tls}"
+            else hopOutToString { o with wrote := canonWire o.wrote })
+          s!"hops={"|".intercalate strs} final={finalToString fin}"
     | _, _, _, _, _ => "bad-op"
   | _ => "bad-op"
 where
@@ -169,5 +184,15 @@ where
 
 def opSend (args : List String) : String := opSendGen false args
 def opSendPt (args : List String) : String := opSendGen true args
+
+/-- `sendf <hop> <takes> <kind> <the arguments of send>`: the connection `hop` breaks for writing after
+    `takes` bytes with the I/O error kind `kind` (Model/SendW.lean) -/
+def opSendF (args : List String) : String :=
+  match args with
+  | i :: k :: kind :: rest =>
+    match i.toNat?, k.toNat?, kind.toNat? with
+    | some i, some k, some kind => opSendGen false rest (some { hop := i, takes := k, err := .io kind })
+    | _, _, _ => "bad-op"
+  | _ => "bad-op"
 
 end Atto.Driver
